@@ -62,7 +62,7 @@ def restrict_care(care):
     _SUPP.clear()
 
 
-LEMMAS = dict(n=0, keep=[], cap=0, rng=None)
+LEMMAS = dict(n=0, keep=[], cap=0, rng=None, last=None, must=[])
 ORDER = dict(key=None)      # global iteration order of sets (C06): key function or None (= ascending / insertion)
 
 
@@ -71,7 +71,7 @@ def reset():
     _INTERN.clear()
     SUBST.clear()
     TT.update(on=False, mask=0, var={}, by={})
-    LEMMAS.update(n=0, keep=[], cap=0, rng=None)
+    LEMMAS.update(n=0, keep=[], cap=0, rng=None, last=None, must=[])
     ORDER.update(key=None)
     VAR_IDX.clear()
     del VAR_NAMES[:]
@@ -92,6 +92,7 @@ def _lemma(op, args, result):
     if not L['cap'] or op == 'var':
         return
     L['n'] += 1
+    L['last'] = (op, args, result)
     if len(L['keep']) < L['cap']:
         L['keep'].append((op, args, result))
     else:
@@ -849,7 +850,10 @@ class VM:
             cc = Ctx(self, fr, g)
             cond = self.conc(cc.truth(cc.ev(s.test)))
             g = cc.g
+            n_before = LEMMAS['n']
             gin = b_and(g, cond)
+            if gin is False and LEMMAS['n'] != n_before and LEMMAS['last'] is not None and LEMMAS['last'][2] is False:
+                LEMMAS['must'].append(LEMMAS['last'])      # the fold that ends this loop: always re-proved by the solver
             gout = b_and(g, b_not(cond))
             if gout is not False:
                 exits.append((gout, fr.locals))
@@ -1361,9 +1365,9 @@ class Ctx:
             if isinstance(op, ast.BitXor):
                 return mk_bool(b_xor(as_b(a), as_b(b)))
             raise Unsupported('bool binop')
-        if isinstance(a, str) and isinstance(op, (ast.Add, ast.Mod)):
+        if isinstance(a, str) and isinstance(op, (ast.Add, ast.Mod)) and (is_symbolic(b) or a == FMT):
             return FMT
-        if isinstance(b, str) and isinstance(op, ast.Add):
+        if isinstance(b, str) and isinstance(op, ast.Add) and (is_symbolic(a) or b == FMT):
             return FMT
         import operator
         f = {ast.Add: operator.add, ast.Sub: operator.sub, ast.Mod: operator.mod, ast.BitAnd: operator.and_,
@@ -1576,7 +1580,26 @@ class Ctx:
         if fn in MODELS:
             return MODELS[fn](self, *args, **kwargs)
         if getattr(fn, '__name__', None) == 'format' and isinstance(getattr(fn, '__self__', None), str):
-            return FMT
+            if any(is_symbolic(a) or a == FMT for a in args) or any(is_symbolic(a) for a in kwargs.values()):
+                return FMT       # message built from symbolic values: never the subject of a property
+            return fn(*args, **kwargs)
+        if any(isinstance(a, SChoice) for a in args) and not kwargs and \
+                all((not is_symbolic(a)) or (isinstance(a, SChoice) and not any(is_symbolic(v) for _, v in a.alts)) for a in args):
+            # guarded union of concrete values: the native function is applied to every alternative
+            import itertools as _it
+            saved = self.g
+            res, lost = UNDEF, False
+            for combo in _it.product(*[alts_of(a) for a in args]):
+                gc = b_and(*[g_ for g_, _ in combo])
+                self.g = b_and(saved, gc)
+                if self.g is False:
+                    continue
+                before = self.g
+                v = self.call(fn, [v_ for _, v_ in combo], {})
+                lost = b_or(lost, b_and(before, b_not(self.g)))
+                res = merge(gc, v, res)
+            self.g = b_and(saved, b_not(lost))
+            return None if res is UNDEF else res
         if any(is_symbolic(a) for a in args) or any(is_symbolic(a) for a in kwargs.values()):
             raise Unsupported('native call %r with symbolic args' % (fn,))
         try:
